@@ -3,6 +3,7 @@ package routingh
 import (
 	"math/big"
 	"net"
+	"sort"
 	"strings"
 
 	"github.com/postalsys/muti-metroo/verifharness/vh"
@@ -185,6 +186,20 @@ func (g *Gen) ageMs(d *Dump, tables []string, nowMs int64) int64 {
 	for _, t := range tables {
 		es = append(es, d.All(t)...)
 	}
+	// the dump lists buckets in Go map order: sort, so that the choice depends on the seed only
+	sort.Slice(es, func(i, j int) bool {
+		a, b := es[i], es[j]
+		if a.Table != b.Table {
+			return a.Table < b.Table
+		}
+		if a.Key != b.Key {
+			return a.Key < b.Key
+		}
+		if a.Origin != b.Origin {
+			return a.Origin < b.Origin
+		}
+		return a.NextHop < b.NextHop
+	})
 	if len(es) > 0 && g.R.Chance(3, 4) {
 		e := es[g.R.Intn(len(es))]
 		age := nowMs - int64(e.LastMs)
